@@ -27,7 +27,7 @@ fn spec(t: Tier) -> Spec {
     Spec {
         id: "C18",
         level: "exploration",
-        rule: format!("every list of <= {} starting points over {} spellings (directory, ./, trailing /, //, /., ../, absolute, missing, file, link to directory with and without trailing /, dangling link, names beginning with ( and !; lists of <= 2 also under -H and -L) (plus, through -files0-from only: the empty name, a name starting with '-', a name containing a newline) is walked by find_main; the -print0 output must be the concatenation, in order, of the per-root reference walks with every path beginning with the root exactly as spelled; each argv list is also given as -files0-from FILE (with and without final NUL) and must give byte-identical output; missing roots must be diagnosed with non-zero status without affecting the others; the no-root case must equal '.'; an empty name is skipped (at most one diagnostic per empty name and no report of an attempt to examine it); alignment sweep: lists of ~1400 and ~2800 names with the terminator of a name at every byte offset 8186..8198 and 16380..16388 (FILE and stdin); binary slice: -files0-from - on stdin; environment cases: a -files0-from list written to a pipe in three pieces; four starting points (one missing) with standard output on /dev/full — all still processed, seen through -fprint; a list holding a name that is not valid UTF-8 (walked, or refused loudly); scale slice: 3000 starting points (18 000-byte list) on the command line, via -files0-from FILE and via -files0-from - with and without a final NUL; 255, 256, 257 and 512 missing starting points followed by an existing one through the binary (every one diagnosed, exit status non-zero, the existing one walked); non-trivial = list with >= 2 roots or a non-canonical spelling", bounds(t), ARGV_ROOTS.len()),
+        rule: format!("every list of <= {} starting points over {} spellings (directory, ./, trailing /, //, /., ../, absolute, missing, file, link to directory with and without trailing /, dangling link, names beginning with ( and !; lists of <= 2 also under -H and -L) (plus, through -files0-from only: the empty name, a name starting with '-', a name containing a newline) is walked by find_main; the -print0 output must be the concatenation, in order, of the per-root reference walks with every path beginning with the root exactly as spelled; each argv list is also given as -files0-from FILE (with and without final NUL) and must give byte-identical output; missing roots must be diagnosed with non-zero status without affecting the others; the no-root case must equal '.' (also for expressions beginning with '!' or '(', after -H/-L/-P, and for expressions selecting nothing); lists with a missing starting point under six -mindepth/-maxdepth windows (two of them empty): diagnosed, non-zero, the others walked; an empty name is skipped (at most one diagnostic per empty name and no report of an attempt to examine it); alignment sweep: lists of ~1400 and ~2800 names with the terminator of a name at every byte offset 8186..8198 and 16380..16388 (FILE and stdin); binary slice: -files0-from - on stdin; environment cases: a -files0-from list written to a pipe in three pieces; four starting points (one missing) with standard output on /dev/full — all still processed, seen through -fprint; a list holding a name that is not valid UTF-8 (walked, or refused loudly); scale slice: 3000 starting points (18 000-byte list) on the command line, via -files0-from FILE and via -files0-from - with and without a final NUL; 255, 256, 257 and 512 missing starting points followed by an existing one through the binary (every one diagnosed, exit status non-zero, the existing one walked); non-trivial = list with >= 2 roots or a non-canonical spelling", bounds(t), ARGV_ROOTS.len()),
         bound: json!({"max_roots": bounds(t), "argv_spellings": ARGV_ROOTS, "files0_only": FILES0_ONLY}),
         assumptions: vec!["exit status after an empty -files0-from name is not judged (statement: 'diagnosed and skipped')".into()],
         shards: 0,
@@ -77,7 +77,11 @@ fn spell<'a>(env: &'a Env, r: &'a str) -> &'a str {
 
 /// reference: (stdout bytes, any root missing, any empty name)
 fn expected(env: &Env, roots: &[&str], follow: Follow) -> (Vec<u8>, bool, usize) {
-    let cfg = WalkCfg { follow, mindepth: 0, maxdepth: usize::MAX, depth_first: false };
+    expected_window(env, roots, follow, 0, usize::MAX)
+}
+
+fn expected_window(env: &Env, roots: &[&str], follow: Follow, mindepth: usize, maxdepth: usize) -> (Vec<u8>, bool, usize) {
+    let cfg = WalkCfg { follow, mindepth, maxdepth, depth_first: false };
     let mut out = vec![];
     let mut missing = false;
     let mut empty = 0usize;
@@ -283,6 +287,52 @@ fn run(ctx: &mut Ctx) {
                 format!("find -print0 gave {} entries (status {:?}), find . gave {}, reference {}", cnt, a.code, b.out.iter().filter(|&&c| c == 0).count(), n),
                 json!({"prop":"C18","roots":[],"form":"argv"}),
             );
+        }
+        // 3b. ... also when the expression begins with '!' or '(' (words that do not start with '-'),
+        // after -H/-L/-P, and for an expression that selects nothing
+        for expr in [vec!["!", "-name", "nope"], vec!["(", "-true", ")"], vec!["-not", "-name", "nope"], vec!["!", "-type", "d"], vec!["(", "-name", "f", "-o", "-name", "r", ")"], vec!["-false"], vec!["!", "-true"]] {
+            for flags in [vec![], vec!["-L"], vec!["-H"], vec!["-P"]] {
+                let mut without: Vec<&str> = flags.clone();
+                without.extend(expr.iter().copied());
+                without.extend(["-sorted", "-print0"]);
+                let mut with: Vec<&str> = flags.clone();
+                with.push(".");
+                with.extend(expr.iter().copied());
+                with.extend(["-sorted", "-print0"]);
+                let a = run_find(&without);
+                let b = run_find(&with);
+                ctx.rep.evaluations += 1;
+                ctx.rep.nontrivial += 1;
+                ctx.rep.count("no_starting_point_cases", 1);
+                if a.out != b.out || a.code != b.code || a.code != Ok(0) {
+                    ctx.rep.violation(
+                        "C18 no starting point is not equivalent to '.'",
+                        format!("find {:?} gave {} entries (status {:?}); find {:?} gave {} (status {:?})", without, a.out.iter().filter(|&&c| c == 0).count(), a.code, with, b.out.iter().filter(|&&c| c == 0).count(), b.code),
+                        json!({"prop":"C18","roots":[],"form":"argv"}),
+                    );
+                }
+            }
+        }
+        // 3c. a starting point that cannot be examined is diagnosed whatever -mindepth / -maxdepth say
+        // (also when no depth satisfies both)
+        for l in [vec!["missing", "r"], vec!["r", "missing", "f"], vec!["missing"], vec!["r/", "dang", "missing", "lr"]] {
+            for (mn, mx) in [(2usize, 1usize), (1, 0), (0, 0), (3, usize::MAX), (2, 2), (1, 1)] {
+                let want = expected_window(&env, &l, Follow::P, mn, mx);
+                let mut av: Vec<String> = l.iter().map(|s| s.to_string()).collect();
+                av.extend(["-mindepth".to_string(), mn.to_string()]);
+                if mx != usize::MAX {
+                    av.extend(["-maxdepth".to_string(), mx.to_string()]);
+                }
+                av.extend(["-sorted".to_string(), "-print0".to_string()]);
+                let args: Vec<&str> = av.iter().map(|s| s.as_str()).collect();
+                let got = run_find(&args);
+                ctx.rep.evaluations += 1;
+                ctx.rep.nontrivial += 1;
+                ctx.rep.count("depth_window_cases", 1);
+                if let Some((sig, detail)) = judge(&format!("argv -mindepth {mn}{}", if mx == usize::MAX { String::new() } else { format!(" -maxdepth {mx}") }), &want, &got) {
+                    ctx.rep.violation(&sig, format!("roots {:?}: find {:?}\n{}", l, av, detail), json!({"prop":"C18","roots":l,"form":"argv"}));
+                }
+            }
         }
         // 4. binary slice: -files0-from - reads standard input
         let w = ctx.sbx.join("w");
